@@ -341,31 +341,36 @@ def obligations(tier: str) -> List[dict]:
         OPS2 = [(0, 0), (0, 1), (1, 0), (1, 1), (1, 2)]
         for k in KEYS + ['symbolic']:
             for af in (False, True):
-                for ops in OPS2:
-                    add('h_rearrange', 'rearrange', 3000, n=3, key=k,
-                        attributes_first=af, i0_op=ops[0], i1_op=ops[1])
+                add('h_rearrange', 'rearrange', 1800, n=2, key=k,
+                    attributes_first=af)
+        for k in ('canonical', 'alphanumeric'):
+            for ops in OPS2:
+                add('h_rearrange', 'rearrange', 1800, n=3, key=k,
+                    attributes_first=True, i0_op=ops[0], i1_op=ops[1])
         for af in (False, True):
-            add('h_flat_symbolic_key', 'flat symbolic key', 1500,
-                ['order-changed'], attributes_first=af)
+            for r0 in range(len(ROLES)):
+                add('h_flat_symbolic_key', 'flat symbolic key', 1800,
+                    ['order-changed'], attributes_first=af, r0=r0)
         for k in KEYS:
-            for mk in (True, False):
+            for nt in (True, False):
+                for mk in (True, False):
+                    add('h_reconfigure', 'reconfigure', 1800, n=2, key=k,
+                        newtop=nt, markers=mk)
+        for k in ('canonical', 'alphanumeric'):
+            for nt in (True, False):
                 for ops in OPS2:
-                    add('h_reconfigure', 'reconfigure', 3000, n=3, key=k,
-                        newtop=True, markers=mk, i0_op=ops[0], i1_op=ops[1])
-                    add('h_reconfigure', 'reconfigure', 3000, n=3, key=k,
-                        newtop=False, markers=mk, i0_op=ops[0],
-                        i1_op=ops[1])
+                    add('h_reconfigure', 'reconfigure', 1800, n=3, key=k,
+                        newtop=nt, markers=True, i0_op=ops[0], i1_op=ops[1])
         for ops in OPS2:
-            add('h_newtop_encode', 'encode new top', 3000, n=3,
+            add('h_newtop_encode', 'encode new top', 1800, n=3,
                 i0_op=ops[0], i1_op=ops[1])
+        for ops in [(1, 0), (1, 1)]:
             for op2 in (0, 1, 2):
-                if ops == (0, 0) and op2 == 2:
-                    continue
-                add('h_newtop_encode', 'encode new top', 3000, n=4,
-                    i0_op=ops[0], i1_op=ops[1], i2_op=op2)
+                add('h_newtop_encode', 'encode new top', 1800, n=4,
+                    i0_op=ops[0], i1_op=ops[1], i2_op=op2, i0_r=0)
         for m in ('default', 'custom'):
-            add('h_key_leaf', 'key leaf', 3000, ['numeric-suffix'],
-                maxlen=4, model=m)
+            add('h_key_leaf', 'key leaf', 1800, ['numeric-suffix'],
+                maxlen=5, model=m)
     return obs
 
 
